@@ -489,7 +489,10 @@ def list_method(ex, ref, m, args, kwargs, st, fr):
     h = st.heap[ref.ref]
     if m == 'append':
         v = args[0]
-        if isinstance(v, VRef) or isinstance(v, VTuple) or isinstance(v, VOpt):
+        if isinstance(v, VOpt):
+            return ex.branch(v.isnone, st, lambda s: ex.unsupported_path(s, 'None appended to a list'),
+                             lambda s: list_method(ex, ref, m, [v.val] + args[1:], kwargs, s, fr))
+        if isinstance(v, VRef) or isinstance(v, VTuple):
             raise Unsupported('list of non-primitive values')
         if h.seq is None:
             h.etype = type_of(v)
@@ -812,6 +815,19 @@ def havoc(ex, modifies, env, st, c):
         for p in parts[1:-1]:
             v = deref_field(v, p, st)
         if len(parts) == 1:
+            # a container passed by reference: its content is replaced in place
+            if isinstance(v, VOpt):
+                v = v.val
+            if isinstance(v, VRef) and isinstance(st.heap[v.ref], HDict):
+                h0 = st.heap[v.ref]
+                if h0.ktype is not None:
+                    st.heap[v.ref] = ex.fresh_dict(h0.ktype, h0.vtype, path)
+                continue
+            if isinstance(v, VRef) and isinstance(st.heap[v.ref], HList):
+                h0 = st.heap[v.ref]
+                if h0.etype is not None:
+                    st.heap[v.ref] = HList(h0.etype, z3.Const(fresh_name(path), z3.SeqSort(sort_of(h0.etype))))
+                continue
             raise SpecError('modifies of a local makes no sense: %s' % path)
         if isinstance(v, VOpt):
             v = v.val
